@@ -71,7 +71,8 @@ def chunks(seq: list, n: int) -> list[list]:
 def eval_families(pool: Pool, seeds: list[int], per_seed: int, cases: list[dict],
                   kinds: dict[str, dict], want_keys: bool) -> dict[str, dict[int, dict]]:
     """-> fam id -> seed -> record"""
-    members = {k: v["members"] for k, v in kinds.items()}
+    from ptverif.eqlib import SYM_MEMBERS
+    members = {k: list(v["members"]) + SYM_MEMBERS.get(k, []) for k, v in kinds.items()}
     parts = chunks(cases, per_seed)
     widx = {(s, k): pool.workers[i * per_seed + k]
             for i, s in enumerate(seeds) for k in range(per_seed)}
@@ -102,6 +103,14 @@ def eval_families(pool: Pool, seeds: list[int], per_seed: int, cases: list[dict]
 OBS_FIELDS = ("eq", "ne", "hash", "inset", "indict", "stale")
 
 
+def _pad_identity(m: list[list[bool]], n: int) -> list[list[bool]]:
+    """The generator's expected identity matrix extended for the members added
+    in Python (symbolic-shape presentations): each of those is structurally
+    different from every other member."""
+    k = len(m)
+    return [[(m[i][j] if i < k and j < k else i == j) for j in range(n)] for i in range(n)]
+
+
 def family_records(fams: dict[str, dict[int, dict]], kinds: dict[str, dict],
                    seeds: list[int]) -> list[dict]:
     """One TLC record per (family, distinct export); the observations of all
@@ -121,7 +130,8 @@ def family_records(fams: dict[str, dict[int, dict]], kinds: dict[str, dict],
                 rec = {"id": fid if not by_export else f"{fid}#{len(by_export)}",
                        "rel": "family", "kind": r["kind"], "ctx": r["ctx"],
                        "names": r["names"], "nodes": r["nodes"], "roots": r["roots"],
-                       "expect": kinds[r["kind"]]["ident"], "obs": [], "seeds": []}
+                       "expect": _pad_identity(kinds[r["kind"]]["ident"], len(r["names"])),
+                       "obs": [], "seeds": []}
                 by_export[sig] = rec
             rec["obs"].append({f: r[f] for f in OBS_FIELDS})
             rec["seeds"].append(s)
